@@ -151,3 +151,28 @@ func TestWitnessShortSingleNal(t *testing.T) {
 		pkts: seqd(1000, 1, rtppack.H265Single(slice5), rtppack.H265Single(eos5)),
 		want: [][]byte{slice5, eos5}})
 }
+
+// An AAC packet whose AU-header announces size 0 carries no access unit: no
+// (empty) frame may be invented for it, and the stream goes on afterwards.
+func TestWitnessAacZeroSizeAU(t *testing.T) {
+	_, am := metas(t, esgen.H264, true, 44100)
+	rec := &recorder{}
+	dp := rtp.NewAacDepacketizer(am, rec)
+	au := hx("21 1a 93 fd b8")
+	pk := []rtppack.Pkt{
+		{PT: 97, Marker: true, Seq: 1, TS: 1024, Payload: hx("0010 0000")},
+		{PT: 97, Marker: true, Seq: 2, TS: 2048, Payload: hx("0010 0000 aa bb cc")},
+		{PT: 97, Marker: true, Seq: 3, TS: 3072, Payload: rtppack.AacHbr([][]byte{au})},
+	}
+	for _, p := range pk {
+		dp.Depacketize(rtppack.ToIpchub(rtp.ChannelAudio, p.Marshal()))
+	}
+	evid.Eval(1)
+	var got []string
+	for _, f := range rec.frames {
+		got = append(got, hex.EncodeToString(f.Payload))
+	}
+	if len(rec.frames) != 1 || !bytes.Equal(rec.frames[0].Payload, au) {
+		evid.Violation(t, "witness-aac-zero-size-au", map[string]any{"got": got}, "AAC payloads 00100000, 00100000aabbcc, then a whole AU %x -> frames %q, want only the whole AU", au, got)
+	}
+}
